@@ -43,8 +43,8 @@ def gen_cases(rnd, n, lang):
         infos, texts = [], []
         if mode == 'except':
             cols = sorted(set(rnd.randrange(len(ih)) for _ in range(rnd.randint(1, 2))))
-            text = 'select %s* except %s' % ('distinct count ' if rnd.random() < 0.3 else '', ', '.join(rnd.choice(['a%d', 'a[%d]']) % (c + 1) for c in cols))
-            dc = 'distinct count' in text
+            text = 'select %s* except %s' % (rnd.choice(['', '', 'distinct count ', 'distinct ', 'top 2 ', 'top 2 distinct ', 'TOP 1 DISTINCT COUNT ']), ', '.join(rnd.choice(['a%d', 'a[%d]']) % (c + 1) for c in cols))
+            dc = 'distinct count' in text.lower()
             cases.append({'text': text, 'dc': dc, 'ih': ih if has_header else None, 'jh': None, 'infos': [], 'except': cols, 'A': A, 'B': None, 'nkinds': 1})
             continue
         nitems = rnd.randint(1, 5)
